@@ -14,9 +14,10 @@ type collector struct {
 	partCount int
 	createdAt time.Time
 
-	mu     sync.Mutex
-	bitMap bitMap
-	buf    []byte
+	mu        sync.Mutex
+	bitMap    bitMap
+	buf       []byte
+	delivered bool
 }
 
 func newCollector(partCount, totalSize int, now time.Time) *collector {
@@ -60,6 +61,11 @@ func (c *collector) isComplete() bool {
 func (c *collector) withBuffer(fn func([]byte) error) error {
 	c.mu.Lock()
 	defer c.mu.Unlock()
+	if c.delivered {
+		// another worker saw the collector complete at the same time and already handed the buffer out.
+		return nil
+	}
+	c.delivered = true
 	return fn(c.buf)
 }
 
